@@ -54,7 +54,7 @@ var prePushOnlyOld = []string{
 	"#!/bin/sh\ncommand -v git-lfs >/dev/null 2>&1 || { echo >&2 \"\\nThis repository has been set up with Git LFS but Git LFS is not installed.\\n\"; exit 2; }\ngit lfs pre-push \"$@\"",
 }
 
-func inst(t, hook string) string { return strings.ReplaceAll(t, "{{Command}}", hook) }
+func inst(t, hook string) string     { return strings.ReplaceAll(t, "{{Command}}", hook) }
 func curTemplate(hook string) string { return inst(tmplCur, hook) }
 func histTemplates(hook string) []string {
 	r := []string{inst(tmplOld1, hook), inst(tmplOld2, hook), inst(tmplOld3, hook)}
@@ -1011,7 +1011,9 @@ type hookClass struct {
 	Make  func(hook string) []placed
 }
 
-func fileAt(data string, mode uint32) []placed { return []placed{{"", ent{Kind: 'f', Mode: mode, Data: data}}} }
+func fileAt(data string, mode uint32) []placed {
+	return []placed{{"", ent{Kind: 'f', Mode: mode, Data: data}}}
+}
 
 func userLines(hook string) string { return "echo USER-LINE-" + hook + "\nexit 0\n" }
 
@@ -1461,15 +1463,15 @@ func toResult(p *partDef, init int, path []int, pre *state, so *stepOut) vx.Resu
 }
 
 type bfsInfo struct {
-	Scenario    string `json:"scenario"`
-	Initial     int    `json:"initial_states"`
-	Ops         int    `json:"operations"`
-	States      int    `json:"states"`
-	Transitions int64  `json:"bfs_edges"`
-	Levels      int    `json:"levels_expanded"`
-	Closure     bool   `json:"closure_reached"`
-	MaxDepth    int    `json:"depth_bound"`
-	WallS       float64 `json:"wall_s"`
+	Scenario             string           `json:"scenario"`
+	Initial              int              `json:"initial_states"`
+	Ops                  int              `json:"operations"`
+	States               int              `json:"states"`
+	Transitions          int64            `json:"bfs_edges"`
+	Levels               int              `json:"levels_expanded"`
+	Closure              bool             `json:"closure_reached"`
+	MaxDepth             int              `json:"depth_bound"`
+	WallS                float64          `json:"wall_s"`
 	ViolatingTransitions map[string]int64 `json:"violating_transitions_by_fingerprint,omitempty"`
 }
 
